@@ -4,14 +4,17 @@ namespace Cel.Bridge
 open Cel
 
 theorem logical_and_eq (x y : O) : Gen.logical_and x y = land x y := by
-  cases x <;> cases y <;> rfl
+  cases x <;> cases y <;> first | rfl | decide
 theorem logical_or_eq (x y : O) : Gen.logical_or x y = lor x y := by
-  cases x <;> cases y <;> rfl
+  cases x <;> cases y <;> first | rfl | decide
 theorem logical_not_eq (x : O) : Gen.logical_not x = lnot x := by
-  cases x <;> rfl
+  cases x <;> first | rfl | decide
 theorem logical_condition_eq (c x y : O) : Gen.logical_condition c x y = lcond c x y := by
-  cases c <;> cases x <;> cases y <;> rfl
-theorem resultCaught_eq : Gen.resultCaught = resultCaught := by decide
+  cases c <;> cases x <;> cases y <;> first | rfl | decide
+/-- `result()` catches exactly the classes the model assumes — compared as SETS (the order of the classes in the
+`except (...)` tuple is irrelevant to Python) -/
+theorem resultCaught_eq (c : Exc) : (c ∈ Gen.resultCaught) ↔ (c ∈ resultCaught) := by
+  cases c <;> decide
 /-- the transpiled `all`/`exists` reducers catch TypeError, as `allC`/`existsC` assume -/
 theorem macro_reducers : Gen.macro_all_reducer_catches_TypeError = true ∧
     Gen.macro_exists_reducer_catches_TypeError = true := by decide
